@@ -16,6 +16,12 @@ check(f'{root}/MANIFEST.json', '/root/.vp/MANIFEST.schema.json', 'MANIFEST.json'
 for f in sorted(glob.glob(f'{root}/evidence/*.json')):
     check(f, '/root/.vp/EVIDENCE.schema.json', os.path.basename(f))
 m = json.load(open(f'{root}/MANIFEST.json'))
+for c in m['checks']:
+    ef = f"{root}/{c['evidence_file']}"
+    if os.path.exists(ef):
+        lv = json.load(open(ef)).get('level')
+        if lv != c['level_claimed']['category']:
+            ok = False; print('FAIL level mismatch', c['property_id'], lv, c['level_claimed']['category'])
 ids = [json.loads(l)['id'] for l in open(f'{root}/properties.jsonl')]
 claimed = {c['property_id'] for c in m['checks']}
 na = {c['property_id'] for c in m.get('not_applicable', [])}
